@@ -6,6 +6,7 @@ All theorems hold for every sequence and every count maximum `m ≥ 1` (no bound
 import TrimeshVerif.Proofs.RunLength
 import TrimeshVerif.Proofs.Views
 import TrimeshVerif.Proofs.Grid
+import TrimeshVerif.Generated.C13Table
 namespace TV.C13
 open TV.RunLength
 
@@ -234,6 +235,37 @@ theorem C13_grid (pitch origin : Rat) (i : Int) :
 /-- a point exactly between two cells goes to the even one (`np.round`) -/
 theorem C13_grid_ties (i : Int) : roundHE ((i : Rat) + 1 / 2) = if i % 2 = 0 then i else i + 1 :=
   roundHE_half i
+
+/-- the in-place operations of the source on a coordinate (`origin` and `pitch` both given) -/
+inductive GridOp | subOrigin | addOrigin | divPitch | mulPitch
+  deriving DecidableEq
+
+def parseOp (op : String) : Option GridOp :=
+  if op = "-= origin | origin is not None" then some .subOrigin
+  else if op = "+= origin | origin is not None" then some .addOrigin
+  else if op = "/= pitch | pitch is not None" then some .divPitch
+  else if op = "*= pitch | pitch is not None" then some .mulPitch
+  else none
+
+def applyOp (pitch origin : Rat) (x : Rat) : GridOp → Rat
+  | .subOrigin => x - origin
+  | .addOrigin => x + origin
+  | .divPitch => x / pitch
+  | .mulPitch => x * pitch
+
+/-- **(G) the grid arithmetic of the source is the model's**: the in-place operations `points_to_indices` and
+    `indices_to_points` apply, read from `voxel/ops.py` by `ast` on every run (operation, operand, guard, order), are
+    "subtract the origin, divide by the pitch, `np.round`" and "multiply by the pitch, add the origin" - the
+    functions `C13_grid` is about -/
+theorem C13_grid_of_source :
+    TV.Generated.C13.pointsToIndicesOps.map parseOp = [some .subOrigin, some .divPitch] ∧
+    TV.Generated.C13.pointsToIndicesFinal = "np.round(points).astype(int)" ∧
+    TV.Generated.C13.indicesToPointsOps.map parseOp = [some .mulPitch, some .addOrigin] ∧
+    (∀ pitch origin p : Rat,
+      roundHE ([GridOp.subOrigin, .divPitch].foldl (applyOp pitch origin) p) = pointToIndex pitch origin p) ∧
+    (∀ (pitch origin : Rat) (i : Int),
+      [GridOp.mulPitch, .addOrigin].foldl (applyOp pitch origin) (i : Rat) = indexToPoint pitch origin i) := by
+  refine ⟨by decide, by decide, by decide, fun _ _ _ => rfl, fun _ _ _ => rfl⟩
 
 end grid
 
